@@ -693,29 +693,56 @@ theorem one_document_end_transfer_never_subset (step : σ → Byte → Step σ) 
 
 /-- Contract of a decompressor placed between the transport and the spool
     (ubuntu bzip2; ovalutil gzip | bzip2 | zstd; epss and cvss gzip): fed a
-    prefix of the compressed feed `z` (with any terminal) it delivers a prefix
-    of the plaintext, and a clean EOF only after the whole plaintext.
-    (Observed on the real decompressors for every script of every run.) -/
+    prefix of the compressed feed `z` (with any terminal) it reports a clean
+    EOF only after the whole plaintext — or after nothing at all (klauspost
+    zstd reads an empty input, also one that ends in io.ErrUnexpectedEOF, as an
+    empty stream).  (Observed on the real decompressors for every script of
+    every run.) -/
 structure ExactWrapper (dec : Stream → Stream) (z plain : Bytes) : Prop where
   eof_complete : ∀ (src : Stream) (k : Nat), src.bytes = z.take k →
-    (dec src).term = .eof → (dec src).bytes = plain
+    (dec src).term = .eof → (dec src).bytes = plain ∨ (dec src).bytes = []
 
 /-- Under that contract a fetch that decompresses while spooling is all or
     nothing, whatever the parser: over any script whose body is a prefix of the
-    compressed feed, Fetch fails or Parse sees exactly the intact plaintext. -/
+    compressed feed, Fetch fails, or Parse sees exactly the intact plaintext,
+    or Parse sees the empty input. -/
 theorem wrapped_fetch_all_or_nothing (parse : Stream → Res α) (dec : Stream → Stream)
     (z plain : Bytes) (hc : ExactWrapper dec z plain) (s : Script) (k : Nat)
     (hs : s.body = z.take k) :
     fetchParse parse (dec (delivered s)) = (.failed, .err) ∨
-    fetchParse parse (dec (delivered s)) = (.fetched, parse ⟨[plain], .eof⟩) := by
+    fetchParse parse (dec (delivered s)) = (.fetched, parse ⟨[plain], .eof⟩) ∨
+    fetchParse parse (dec (delivered s)) = (.fetched, parse ⟨[[]], .eof⟩) := by
   unfold fetchParse spool
   by_cases ht : (dec (delivered s)).term = .eof
   · right
     rw [if_pos ht]
     obtain ⟨k', hk'⟩ := delivered_prefix s
     have hb : (delivered s).bytes = z.take (min k' k) := by rw [hk', hs, List.take_take]
-    rw [hc.eof_complete _ _ hb ht]
+    rcases hc.eof_complete _ _ hb ht with h | h
+    · left; rw [h]
+    · right; rw [h]
   · left; rw [if_neg ht]
+
+/-- A one-document parser never accepts the empty input. -/
+theorem one_decode_empty_fails (step : σ → Byte → Step σ) (init : σ) (sem : Bytes → Option α) (t : Term) :
+    decodeOne step init sem ⟨[[]], t⟩ = .err := by
+  simp [decodeOne, scanChunks, scanChunk]
+
+/-- Hence for the OVAL feeds fetched through a decompressor (ubuntu bzip2,
+    oracle bzip2, suse gzip | zstd, photon gzip): over any script carrying a
+    prefix of the compressed feed the store is not touched or receives the
+    intact snapshot. -/
+theorem wrapped_one_document_never_subset (step : σ → Byte → Step σ) (init : σ)
+    (sem : Bytes → Option α) (dec : Stream → Stream) (z plain : Bytes)
+    (hc : ExactWrapper dec z plain) (s : Script) (k : Nat) (hs : s.body = z.take k) :
+    (runTransfer (decodeOne step init sem) (dec (delivered s))).1 = .none ∨
+    (runTransfer (decodeOne step init sem) (dec (delivered s))).1 =
+      (drive .fetched (decodeOne step init sem ⟨[plain], .eof⟩)).1 := by
+  unfold runTransfer
+  rcases wrapped_fetch_all_or_nothing (decodeOne step init sem) dec z plain hc s k hs with h | h | h
+  · left; rw [h]; rfl
+  · right; rw [h]
+  · left; rw [h, one_decode_empty_fails]; rfl
 
 /-- aws: the compressed download is spooled, Parse decompresses, decodes and
     drains.  Contract of gzip on the spooled bytes: a clean EOF only after the
@@ -865,23 +892,28 @@ theorem epss_csv_truncation_counterexample :
 
 /-- What makes the epss download all or nothing is the gzip layer: under the
     wrapper contract, over any script whose body is a prefix of the compressed
-    file, FetchEnrichment fails or produces exactly the intact records. -/
-theorem epss_fetch_all_or_nothing (h : Handler σ ρ) (init : σ) (dec : Stream → Stream)
+    file, FetchEnrichment fails or produces exactly the intact records (an
+    empty decompressed input fails: the metadata line is missing). -/
+theorem epss_fetch_all_or_nothing (fok : Bytes → Bool) (dec : Stream → Stream)
     (z plain : Bytes) (hc : ExactWrapper dec z plain) (s : Script) (k : Nat)
     (hs : s.body = z.take k) :
-    csvLoop h init (dec (delivered s)) = .err ∨
-    csvLoop h init (dec (delivered s)) = csvLoop h init ⟨[plain], .eof⟩ := by
-  cases hr : csvLoop h init (dec (delivered s)) with
+    epssCsv fok (dec (delivered s)) = .err ∨
+    epssCsv fok (dec (delivered s)) = epssCsv fok ⟨[plain], .eof⟩ := by
+  cases hr : epssCsv fok (dec (delivered s)) with
   | err => left; rfl
   | ok vs =>
-    right
-    obtain ⟨hterm, _⟩ := csv_success_needs_clean_eof h init _ vs hr
+    obtain ⟨hterm, _⟩ := csv_success_needs_clean_eof _ _ _ vs hr
     obtain ⟨k', hk'⟩ := delivered_prefix s
     have hb : (delivered s).bytes = z.take (min k' k) := by rw [hk', hs, List.take_take]
-    have hbytes := hc.eof_complete _ _ hb hterm
-    rw [← hr]
-    unfold csvLoop
-    rw [hbytes, hterm, bytes_single]
+    rcases hc.eof_complete _ _ hb hterm with hbytes | hbytes
+    · right
+      rw [← hr]
+      unfold epssCsv csvLoop
+      rw [hbytes, hterm, bytes_single]
+    · exfalso
+      unfold epssCsv csvLoop at hr
+      rw [hbytes] at hr
+      simp [csvLines, splitLines, csvFold, epssHandler] at hr
 
 /-- vex deletions.csv / changes.csv travel uncompressed: a cut at a record
     boundary that the transport does not report is accepted with the first
